@@ -2,7 +2,7 @@
    Combine with C07_stream_is_served_request_by_request: all complete requests before the point where
    the stream ends or breaks are served ([served ...]) and then the continuation below decides how the
    connection ends -- nothing after that point is served. *)
-From TM Require Import Base Frame Pdu RtuCodec Framed Client Server FramedProofs ServerProofs AcceptProofs EndToEnd.
+From TM Require Import Base Frame Pdu RtuCodec TcpCodec Framed Client Server FramedProofs ServerProofs AcceptProofs EndToEnd PartialFrame.
 
 (* peer closes on a frame boundary: silent end *)
 Theorem C14_clean_close : forall p m fuel rd w svc tl,
@@ -49,3 +49,16 @@ Theorem C14_abort_during_hanging_setup : forall pre post1 post2,
   forallb (fun x => negb (stops x)) pre = true ->
   serve (pre ++ AConn SetupHang :: post1 ++ AAbort :: post2) = (flat_map script_of pre, SrvAborted).
 Proof. exact abort_during_hanging_setup. Qed.
+
+(* "the stream ends inside a frame" for ARBITRARY bytes: the bytes received since the last frame boundary form a PARTIAL frame -- the
+   decoder has accepted their beginning as the start of a frame announcing more bytes than have arrived (RTU: the request length
+   table; TCP: a non-zero MBAP length field, or fewer than 7 bytes) -- whatever those bytes are, also when they contain a complete
+   well-formed frame of their own: exactly one report, no service invocation, nothing written *)
+Theorem C14_end_inside_partial_frame : forall p m fuel rd w svc cs tl,
+  Forall nonempty cs -> concat cs <> [] -> partial_srv p (concat cs) ->
+  process (S fuel) p m (mkR [] false rd false) w (datas cs ++ REof :: tl) svc = [TReport (KOther 0)].
+Proof. exact end_inside_partial_frame. Qed.
+Theorem C14_error_inside_partial_frame : forall p m fuel rd w svc cs tl k,
+  Forall nonempty cs -> partial_srv p (concat cs) ->
+  process (S fuel) p m (mkR [] false rd false) w (datas cs ++ RErr k :: tl) svc = [TReport k].
+Proof. exact error_inside_partial_frame. Qed.
